@@ -19,7 +19,7 @@ from __future__ import annotations
 import dataclasses
 import functools
 import math
-from typing import Dict, Iterable, Iterator, Tuple
+from typing import Dict, Iterable, Iterator, List, Tuple
 
 from falcon import errors
 
@@ -223,9 +223,45 @@ _parse_media_type = functools.lru_cache(_MediaType.parse)
 _parse_media_range = functools.lru_cache(_MediaRange.parse)
 
 
+def _split_media_ranges(header: str) -> List[str]:
+    # NOTE: Commas separate list members only outside of quoted strings
+    #   (RFC 9110, Section 5.6.1); a quoted parameter value, such as a multipart
+    #   boundary, may legitimately contain a comma.
+    if '"' not in header:
+        return header.split(',')
+
+    members = []
+    start = 0
+    quoted = False
+    escaped = False
+    for pos, char in enumerate(header):
+        if quoted:
+            if escaped:
+                escaped = False
+            elif char == '\\':
+                escaped = True
+            elif char == '"':
+                quoted = False
+        elif char == '"':
+            quoted = True
+        elif char == ',':
+            members.append(header[start:pos])
+            start = pos + 1
+
+    if quoted:
+        # NOTE: An unterminated quoted string; do not let it swallow the rest
+        #   of the list.
+        return header.split(',')
+
+    members.append(header[start:])
+    return members
+
+
 @functools.lru_cache()
 def _parse_media_ranges(header: str) -> Tuple[_MediaRange, ...]:
-    return tuple(_MediaRange.parse(media_range) for media_range in header.split(','))
+    return tuple(
+        _MediaRange.parse(media_range) for media_range in _split_media_ranges(header)
+    )
 
 
 @functools.lru_cache()
